@@ -63,7 +63,9 @@ def main():
                     os.makedirs(os.path.join(VERIF, "regress", c), exist_ok=True)
                     for f in glob.glob(os.path.join(wt, "_replays", c, "*.bin"))[:2]:
                         base = os.path.basename(f).rsplit("-", 1)[0]
-                        shutil.copyfile(f, os.path.join(VERIF, "regress", c, "%s-seed%s.%s-%s" % (base, pid, n, os.path.basename(f).rsplit("-", 1)[1])))
+                        dstf = os.path.join(VERIF, "regress", c, "%s-seed%s.%s-%s" % (base, pid, n, os.path.basename(f).rsplit("-", 1)[1]))
+                        shutil.copyfile(f, dstf)
+                        if os.path.exists(f + ".meta.json"): shutil.copyfile(f + ".meta.json", dstf + ".meta.json")
             rec["checks"] = res
             m = {}
             try: m = json.load(open(meta))
